@@ -352,8 +352,15 @@ mod el {
                     }
                     (false, Kind::Publish) if e.pk.pkid != 0 => {
                         // written (again): from now on acknowledgements on this connection count
-                        let mut c = by_pkid(&owed, e.pk.pkid, Phase::Sent, None);
-                        c.extend(by_pkid(&owed, e.pk.pkid, Phase::Parked, None));
+                        // a replay of the publish that holds the id (not yet written on this
+                        // connection) comes before the release of a publish parked behind it
+                        let mut c: Vec<String> = by_pkid(&owed, e.pk.pkid, Phase::Sent, None)
+                            .into_iter()
+                            .filter(|k| owed[k].conn != conn_no)
+                            .collect();
+                        if c.is_empty() {
+                            c = by_pkid(&owed, e.pk.pkid, Phase::Parked, None);
+                        }
                         if c.len() > 1 {
                             stats.add_extra("s3_runs_not_judged_pkid_ambiguous", 1);
                             return out;
